@@ -21,12 +21,14 @@
 #include <sstream>
 #include <string>
 #include <vector>
+#include <tuple>
 #include <unistd.h>
 
 #include "manifold/manifold.h"
 using namespace manifold;
 
 static int g_maxtri = 4000;
+static bool g_lazy = false;  // PROG <id> -<maxtri>: build the whole program first, evaluate afterwards (last value first)
 
 static void emit(const std::string& id, const Manifold& m, const std::string& note) {
   const int status = (int)m.Status();
@@ -295,6 +297,7 @@ static bool tooBig(const Manifold& m, double factor = 1.0) { return (double)m.Nu
 
 static void runProgram(const std::string& pid, const std::vector<std::vector<std::string>>& ins) {
   std::vector<Manifold> vals;
+  std::vector<std::tuple<std::string, Manifold, std::string>> pending;
   auto R = [&](const std::vector<std::string>& t, size_t i) -> Manifold {
     long long k = I(t, i);
     if (k < 0 || k >= (long long)vals.size()) return Manifold();
@@ -414,9 +417,17 @@ static void runProgram(const std::string& pid, const std::vector<std::vector<std
     else if (op == "copy") r = R(t, 1);
     else { r = Manifold(); note = "unknown-op"; }
     vals.push_back(r);
-    emit(id, r, note);
-    for (auto& e : extra) emit(e.first, e.second, "-");
+    if (!g_lazy) {
+      emit(id, r, note);
+      for (auto& e : extra) emit(e.first, e.second, "-");
+    } else {
+      pending.push_back({id, r, note});
+      for (auto& e : extra) pending.push_back({e.first, e.second, "-"});
+    }
   }
+  // lazy mode: nothing was evaluated while the program was built (except by size guards); now force the values
+  // LAST FIRST, so that every CSG tree is evaluated with its pending transforms and unevaluated children
+  for (size_t i = pending.size(); i-- > 0;) emit(std::get<0>(pending[i]), std::get<1>(pending[i]), std::get<2>(pending[i]));
   printf("END %s\n", pid.c_str());
   fflush(stdout);
 }
@@ -430,6 +441,8 @@ int main(int argc, char** argv) {
     in >> tag;
     if (tag != "PROG") continue;
     in >> pid >> g_maxtri;
+    g_lazy = g_maxtri < 0;
+    if (g_lazy) g_maxtri = -g_maxtri;
     std::vector<std::vector<std::string>> ins;
     std::string tok;
     while (in >> tok) {
